@@ -748,9 +748,13 @@ func c16JudgeOracle(args, real, drv json.RawMessage) *core.Verdict {
 	return nil
 }
 
-// None of the modelled functions loops (finite lists, finite files); a case that does not answer within the default
-// 10 s on a saturated machine is a scheduling stall, so the watchdog is generous.  Hangs of the loader are C01's.
-const c16Timeout = 180 * time.Second
+// None of the modelled functions loops (finite lists, finite files); on a saturated machine (load average 100+) single
+// cases have been seen not to answer within the default 10 s, so the watchdog is generous.  A change that makes the
+// real code hang is still reported quickly: runC16 lowers the engine's crash-storm limit to c16CrashLimit, so at most a
+// handful of watchdog periods (in parallel lanes) pass before the remaining cases are dropped and the `hang` failures
+// are reported.
+const c16Timeout = 90 * time.Second
+const c16CrashLimit = 3
 
 func init() {
 	core.Register("c16.resolve", &core.CheckDef{
